@@ -15,6 +15,12 @@ claimed = {
              text='13 families of well-typed programs are enumerated completely; every program must get no error diagnostic and the types recorded for its expressions must equal the reference type checker\'s; every single-fault mutant (about 95 mutators applied at every position) must get at least one error diagnostic. Both directions on every element, no sampling.', ref='5/C03'),
  'C04': dict(technique='bounded exhaustive differential enumeration (interpreter vs VM)',
              text='Every accepted program of the enumerated families is run on both backends and the observation records are compared; complete enumeration within the bounds.', ref='5/C04'),
+ 'C05': dict(technique='bounded exhaustive enumeration of input texts (all short strings over a 48-symbol alphabet, all short token sequences in 6 contexts, all single-token edits and prefixes of the shipped corpus, nesting families to depth 1000, import graphs) with guarded child-process probes',
+             text='Parse and Analyze must return on every element of the enumerated input spaces, also when the text is served as an imported module; panics are recovered and reported, non-returning or stack-exhausting inputs are detected in a guarded child process and attributed to the culprit function.', ref='5/C05'),
+ 'C06': dict(technique='bounded exhaustive enumeration of strings and lexeme adjacencies against a reference lexer transcribed from grammar.ebnf',
+             text='Every string of length <= 3/4 over a 48-symbol alphabet and every pair/triple of ~120 lexemes joined by each separator: token kinds, values and inclusive spans of the real lexer equal the reference lexer; lexical errors are errors.', ref='5/C06'),
+ 'C07': dict(technique='bounded exhaustive enumeration of operator pairs/triples/quadruples and layout variants against an independent precedence-climbing reference',
+             text='All ordered pairs, triples (thorough: quadruples) of the binary operators, `as` and assignment operators with prefix/postfix wrappers: the real parse tree equals the tree fixed by the documented operator table; every separator at every gap, redundant parentheses and trailing commas leave the tree unchanged.', ref='5/C07'),
  'C08': dict(technique='bounded exhaustive enumeration of interrupt/diagnostic/syntax-error positions over program families, single-fault programs and all single-character edits of base texts',
              text='Every interrupt span of programs ending in a throw or fatal error (both backends) is consistent with the text and within the culprit known from the IR printer; first diagnostics of single-fault programs lie within the culprit in several layouts; every syntax error and diagnostic of every single-character edit of the base texts has a consistent span and renders without panic.', ref='5/C08'),
  'C09': dict(technique='bounded exhaustive enumeration of (program, limit triple, iteration count) over a limit lattice with a differential oracle',
